@@ -16,21 +16,21 @@
      [cfg |-> [side |-> "server" | "client", msgs |-> <<layout, ...>>], lines |-> <<line, ...>>]
    msgs = the messages sent on one connection, each one after the answer to
    the previous one (keep-alive, no pipelining).  A line is a flat record
-     [k, m, a, pos, ds, dm, dp, dq, dv, dh, db, dr]:
+     [k, m, a, pos, d]:
      k="read"       a bytes of message m were handed to the component in one
                     read event; pos = bytes of m delivered so far (after it)
      k="emit"       the component produced its event for the current message
                     (server: `request` seen by a handler; client: `response`);
-                    d* = 1 iff that field of the event's projection differs from
-                    the event produced when the same bytes are delivered in one
-                    piece on the same tree (ds status, dm method, dp path,
-                    dq query string, dv protocol version, dh header multiset,
-                    db body) - equality is decided by the harness, the verdict
-                    by the monitor
+                    d = set of flags (sum of powers of two), one per field of the
+                    event's projection that differs from the event produced when
+                    the same bytes are delivered in one piece on the same tree:
+                    1 status, 2 method, 4 path, 8 query string, 16 protocol
+                    version, 32 header multiset, 64 body - equality is decided
+                    by the harness, the verdict by the monitor
      k="error"      a = status of a 4xx/5xx response written by the server, or
-                    1000 + errno of the parser, or 2000 for an exception event
+                    2000 for an `exception` event
      k="resp"       server side, at quiescence after message m was delivered:
-                    dr = 1 iff the bytes written in answer (Date masked) or the
+                    d = 128 iff the bytes written in answer (Date masked) or the
                     closing of the connection differ from one-piece delivery
      k="peerclose"  the peer closed the connection (ends a read-until-close body)
      k="quiet"      nothing is queued any more after message m was delivered
@@ -86,8 +86,8 @@ Boundaries(L) ==
 -----------------------------------------------------------------------------
 P0 == [m |-> 1, pos |-> 0, emitted |-> 0, closed |-> FALSE, errors |-> 0]
 
-Line(k, m, a, pos) == [k |-> k, m |-> m, a |-> a, pos |-> pos, ds |-> 0, dm |-> 0, dp |-> 0, dq |-> 0,
-                       dv |-> 0, dh |-> 0, db |-> 0, dr |-> 0]
+Line(k, m, a, pos) == [k |-> k, m |-> m, a |-> a, pos |-> pos, d |-> 0]
+Flag(d, bit) == (d \div bit) % 2 = 1
 
 InRange(C, P)  == P.m >= 1 /\ P.m <= Len(C.msgs)
 (* every byte of the current message was delivered (a read-until-close body
@@ -105,16 +105,16 @@ Fail(C, P, ln) ==
     [] ln.k = "emit" ->
          IF P.emitted > 0 THEN "C13.twice"
          ELSE IF ~Delivered(C, P) THEN "C13.early"
-         ELSE IF ln.ds = 1 THEN "C13.differs_status"
-         ELSE IF ln.dm = 1 THEN "C13.differs_method"
-         ELSE IF ln.dp = 1 THEN "C13.differs_path"
-         ELSE IF ln.dq = 1 THEN "C13.differs_query"
-         ELSE IF ln.dv = 1 THEN "C13.differs_version"
-         ELSE IF ln.dh = 1 THEN "C13.differs_headers"
-         ELSE IF ln.db = 1 THEN "C13.differs_body"
+         ELSE IF Flag(ln.d, 1) THEN "C13.differs_status"
+         ELSE IF Flag(ln.d, 2) THEN "C13.differs_method"
+         ELSE IF Flag(ln.d, 4) THEN "C13.differs_path"
+         ELSE IF Flag(ln.d, 8) THEN "C13.differs_query"
+         ELSE IF Flag(ln.d, 16) THEN "C13.differs_version"
+         ELSE IF Flag(ln.d, 32) THEN "C13.differs_headers"
+         ELSE IF Flag(ln.d, 64) THEN "C13.differs_body"
          ELSE ""
     [] ln.k = "error" -> "C13.spurious_error"       \* every layout of a trace is well-formed
-    [] ln.k = "resp" -> IF ln.dr = 1 THEN "C13.differs_response" ELSE ""
+    [] ln.k = "resp" -> IF Flag(ln.d, 128) THEN "C13.differs_response" ELSE ""
     [] ln.k = "peerclose" ->
          IF ~InRange(C, P) THEN "C13.malformed"
          ELSE IF C.msgs[P.m].body # "close" \/ P.pos # Total(C.msgs[P.m]) \/ P.closed THEN "C13.malformed"
